@@ -105,9 +105,12 @@ def linear_spline(
 
     if inverse:
         outputs = outputs * (right - left) + left
+        # rescaling can round an end-point one ulp outside the box (e.g. 0.1 + 0.6 * 1.0 > 0.7)
+        outputs = torchutils.clamp_preserve_gradients(outputs, left, right)
         logabsdet = logabsdet + math.log(right - left) - math.log(top - bottom)
     else:
         outputs = outputs * (top - bottom) + bottom
+        outputs = torchutils.clamp_preserve_gradients(outputs, bottom, top)
         logabsdet = logabsdet + math.log(top - bottom) - math.log(right - left)
 
     return outputs, logabsdet
